@@ -117,6 +117,7 @@ pub fn all() -> Vec<Prop> {
                 "e1.fault.drop",
                 "e1.long_line_dropped_ok",
                 "e1.giant_line",
+                "e1.giant_line_async",
             ],
             watchdog_s: 120,
         },
@@ -150,6 +151,7 @@ pub fn all() -> Vec<Prop> {
                 "e3.rival_commit",
                 "e3.write_fault",
                 "e3.persist_fault",
+                "e3.persist_failed_entry_gone",
                 "e3.tmp_missing",
             ],
             watchdog_s: 60,
